@@ -55,12 +55,12 @@ carquet_status_t carquet_delta_length_decode(
     int32_t num_values,
     size_t* bytes_consumed) {
 
-    if (!data || !values || num_values <= 0) {
+    if (!data || !values || num_values < 0) {
         return CARQUET_ERROR_INVALID_ARGUMENT;
     }
 
     /* Allocate buffer for lengths */
-    int32_t* lengths = malloc(num_values * sizeof(int32_t));
+    int32_t* lengths = malloc((num_values ? (size_t)num_values : 1) * sizeof(int32_t));
     if (!lengths) {
         return CARQUET_ERROR_OUT_OF_MEMORY;
     }
@@ -129,12 +129,12 @@ carquet_status_t carquet_delta_length_encode(
     int32_t num_values,
     carquet_buffer_t* output) {
 
-    if (!values || !output || num_values <= 0) {
+    if (!values || !output || num_values < 0) {
         return CARQUET_ERROR_INVALID_ARGUMENT;
     }
 
     /* Extract lengths */
-    int32_t* lengths = malloc(num_values * sizeof(int32_t));
+    int32_t* lengths = malloc((num_values ? (size_t)num_values : 1) * sizeof(int32_t));
     if (!lengths) {
         return CARQUET_ERROR_OUT_OF_MEMORY;
     }
